@@ -94,6 +94,15 @@ def space(sid):
         raise KeyError(sid)
     return ns
 
+class SI(dict):
+    """view of a namespace with every entry converted to MKS on access: the defining relations are
+    evaluated on SI magnitudes, so that exotic base units (kpc, Mearth, hr …) cannot push an
+    intermediate product such as kb**4 into the subnormal range"""
+    def __init__(self, ns):
+        self.ns = ns
+    def __getitem__(self, k):
+        return self.ns[k].in_mks()
+
 def ratio(lhs, rhs):
     """lhs / rhs as a pure number (must be dimensionless)"""
     r = lhs / rhs
@@ -340,17 +349,26 @@ def run(tier, seed):
             ns = live[sid]
             chk.case(("relation", rname, sid))
             chk.count("relation:" + ("numeric" if numeric else "identity"))
-            body = (f"ns = space({sid!r})\nlhs = {lhs}\nrhs = {rhs}\nr = ratio(lhs, rhs)\n"
+            body = (f"ns = SI(space({sid!r}))\nlhs = {lhs}\nrhs = {rhs}\nr = ratio(lhs, rhs)\n"
                     f"assert abs(r - 1) <= {tol!r}, r\n")
             try:
                 genv = dict(env)
-                genv["ns"] = ns
+                genv["ns"] = env["SI"](ns)
                 r = eval(f"ratio({lhs}, {rhs})", genv)
                 ok = abs(r - 1) <= tol
                 what = f"lhs/rhs = {r!r}"
             except Exception as e:  # noqa: BLE001
                 ok = False
                 what = f"raised {core.exc_name(e)}: {e}"
+            if ok:
+                # the same relation in the namespace's own units (not decisive: products of
+                # very small numbers may leave the normal range of doubles there)
+                try:
+                    genv["ns"] = ns
+                    r2 = eval(f"ratio({lhs}, {rhs})", genv)
+                    chk.count("relation-native:" + ("agrees" if abs(r2 - 1) <= max(tol, 1e-9) else "rounding"))
+                except Exception:  # noqa: BLE001
+                    chk.count("relation-native:not-evaluable")
             if not ok:
                 kind = sid if not sid.startswith("custom:") else "custom"
                 chk.fail(f"relation|{rname}", f"defining relation {rname} fails in namespace {sid} ({kind}): {what} (tolerance {tol:g})",
